@@ -295,6 +295,11 @@ def _helpers(ctx: Ctx, r: RuleResult, pc, self_t: Term):
                         for rg, exc in e.raises:
                             if 'HplSanityError' in repr(exc) and any(pol and isinstance(t, Op) and t.op == '==' and Attr(self_q, 'variable') in t.args for t, pol in flat_guards(rg)):
                                 walked = True
+                if o.kind == 'raise' and 'HplSanityError' in repr(o.value) and fld == 'domain':
+                    # the whole-sub-tree query of the node itself (S3 decides that it reaches every descendant)
+                    for t, pol in flat_guards(o.guards):
+                        if pol and isinstance(t, Call) and call_name(t) == 'contains_reference' and call_recv(t) == val and t.args == (Attr(self_q, 'variable'),):
+                            walked = True
                 if o.kind == 'raise' and 'HplSanityError' in repr(o.value):
                     # the search forms: any(... for x in value.iterate()), next(filter(pred, value.iterate()), None)
                     for it, each, cond in search_tests(ctx.ev, o.guards):
@@ -518,8 +523,11 @@ def D5(ctx: Ctx) -> RuleResult:
     p = Sym('p')
 
     def pol(f: FunctionInfo, depth: int) -> bool:
-        return False
-    outs = Evaluator(ctx.model, inline=pol).run(fi, {fi.params()[0]: p})
+        # a private helper that only does the re-wrapping is looked through; the simplifier and the tests stay calls
+        return f.module.name == 'hpl.rewrite' and f.cls is None and f.name.startswith('_') and not f.name.startswith('_simplify') and depth <= 2 \
+            and not any(isinstance(x, (ast.For, ast.While, ast.Try, ast.With)) for x in ast.walk(f.node)) and default_inline(f, depth)
+    from .terms import expand_outcomes
+    outs = expand_outcomes(Evaluator(ctx.model, inline=pol).run(fi, {fi.params()[0]: p}))
     seen = {}
     for o in outs:
         gs = norm_guards(o.guards)
@@ -530,7 +538,10 @@ def D5(ctx: Ctx) -> RuleResult:
             continue
         v = o.value
         flags = {}
-        for t, pol_ in gs:
+        if False:
+            pass
+        from .terms import implied_literals
+        for t, pol_ in tuple(gs) + tuple(implied_literals(o.guards, 12)):
             if isinstance(t, Call) and isinstance(t.func, FuncRef) and t.func.key.endswith((':is_true', ':is_false')):
                 flags[t.func.key.split(':')[1]] = pol_
         if isinstance(v, New) and v.cls == 'HplVacuousTruth':
